@@ -815,6 +815,15 @@ func RC[C any](site int32, ch C) C {
 	return ch
 }
 
+// LC is a scheduling point immediately before len(ch) is observed (blocked senders and
+// receivers of the real runtime may have moved data in the meantime).
+func LC[C any](site int32, ch C) C {
+	if s := cur; s != nil && !s.tearing {
+		s.park(gate{kind: gYield, site: site})
+	}
+	return ch
+}
+
 // CL records that ch is being closed and returns it.
 func CL[C any](site int32, ch C) C {
 	s := cur
